@@ -258,3 +258,34 @@ Proof.
     + apply (IH (length (skipn (i + length d) s))); [|reflexivity]. rewrite skipn_length. lia.
   - rewrite (split_none d s F). constructor; [|constructor]. unfold contains. rewrite F. reflexivity.
 Qed.
+
+(* ---------------------------------------------------------------- count *)
+
+Lemma count_fuel_S f d s :
+  count_fuel (S f) d s = match find d s with
+                         | None => O
+                         | Some i => S (count_fuel f d (skipn (i + length d) s))
+                         end.
+Proof. reflexivity. Qed.
+
+Lemma count_fuel_enough d : d <> [] -> forall f1 f2 s, (length s < f1)%nat -> (length s < f2)%nat ->
+  count_fuel f1 d s = count_fuel f2 d s.
+Proof.
+  intros Hd. induction f1 as [|f1 IH]; intros f2 s H1 H2; [lia|].
+  destruct f2 as [|f2]; [lia|]. rewrite !count_fuel_S.
+  destruct (find d s) as [i|] eqn:F; [|reflexivity].
+  f_equal. pose proof (find_some_len _ _ _ F) as Hl.
+  assert (length d > 0)%nat by (destruct d; [congruence|cbn; lia]).
+  apply IH; rewrite skipn_length; lia.
+Qed.
+
+Lemma count_none d s : find d s = None -> count d s = O.
+Proof. intros F. unfold count. rewrite count_fuel_S, F. reflexivity. Qed.
+
+Lemma count_some d s i : d <> [] -> find d s = Some i -> count d s = S (count d (skipn (i + length d) s)).
+Proof.
+  intros Hd F. unfold count. rewrite count_fuel_S, F. f_equal.
+  pose proof (find_some_len _ _ _ F) as Hl.
+  assert (length d > 0)%nat by (destruct d; [congruence|cbn; lia]).
+  apply count_fuel_enough; [assumption| |]; rewrite skipn_length; lia.
+Qed.
